@@ -130,6 +130,14 @@ fn rule_terms(r: &asp::Rule) -> Vec<asp::Term> {
     ts
 }
 
+/// the largest absolute integer a subterm of the rule takes under INNER assignments (at least 2)
+pub fn rule_window_bound(r: &asp::Rule) -> i128 {
+    let vars: Vec<String> = r.variables().into_iter().map(|v| v.0).collect();
+    let mut bound = 2i128;
+    for t in rule_terms(r) { subterm_bound(&t, &vars, &mut bound); }
+    bound
+}
+
 fn is_guarded(r: &asp::Rule) -> bool {
     let mut guarded = BTreeSet::new();
     for f in &r.body.formulas {
